@@ -1,7 +1,7 @@
 (* C13 - each low-level Encoder/Decoder call handles exactly one reference-encoded field. *)
 From Coq Require Import List ZArith Bool.
 From Pico Require Import Base.Res Base.Mach Wire.Wire Schema.Types Schema.Scalar Ref.Ref
-  Schema.ScalarProofs Enc.Enc Enc.EncProofs Dec.Dec Dec.ReaderProofs gen.ConvGen gen.TypesTable.
+  Schema.ScalarProofs Enc.Enc Enc.EncProofs Dec.Dec Dec.ReaderProofs Dec.SafetyProofs Dec.LoopInst Dec.TokenBridge Dec.StreamLoop Dec.ReaderBridge Schema.TDec gen.ConvGen gen.TypesTable.
 Import ListNotations.
 Open Scope Z_scope.
 
@@ -45,10 +45,36 @@ Theorem C13_reader_next : forall num wt rest pf0 pw0 e, valid_number num = true 
   {| pf := num; pw := wt; buf := rest; err := e |}.
 Proof. exact next_field_tag. Qed.
 
-(* PARTIAL: the contracts of Repeated* readers (all consecutive occurrences, packed and
-   unpacked), of Message/PresentMessage/RepeatedMessage/RepeatedEnum/UnrecognizedFields and
-   of arbitrary *programs* of writer calls are tied to the code by the exhaustive
-   correspondence grids only; see DESIGN.md (C13). *)
+(* Readers on ARBITRARY input: a typed single reader on its pending field consumes exactly one value of the wire
+   grammar and stores the protobuf conversion of it, or fails (sticky error) exactly where the grammar has no such
+   value or the wire type is not the kind's *)
+Theorem C13_reader_any_input : forall k num rest, bytes_ok rest ->
+  match parse_value num (wire_of k) rest with
+  | Some (p, kk) => exists x, tok_scalar k {| t_num := num; t_wt := wire_of k; t_pay := p; t_raw := firstn kk rest |} = Some x /\
+                              dec_payload k rest = (x, Z.of_nat kk)
+  | None => snd (dec_payload k rest) < 0
+  end.
+Proof. exact dec_payload_parse. Qed.
+(* one iteration of a Repeated<K> reader on its pending field: one packed record (all its elements, = the reference
+   unpacker) or one unpacked element is appended and the cursor moves to the next tag; otherwise a sticky error *)
+Theorem C13_repeated_reader_iteration : forall k f fuel st vs, err st = None -> bytes_ok (buf st) -> pf st = f ->
+  match parse_value f (pw st) (buf st) with
+  | None => err (fst (dec_repeated (S fuel) k f st vs)) <> None /\ bytes_ok (buf (fst (dec_repeated (S fuel) k f st vs)))
+  | Some (p, kk) =>
+      match rep_elems k (tok_of st p kk) with
+      | None => err (fst (dec_repeated (S fuel) k f st vs)) <> None /\ bytes_ok (buf (fst (dec_repeated (S fuel) k f st vs)))
+      | Some xs => dec_repeated (S fuel) k f st vs = dec_repeated fuel k f (next_field (Z.of_nat kk) st) (vs ++ xs)
+      end
+  end.
+Proof. exact rep_iter. Qed.
+Theorem C13_packed_is_reference_unpack : forall k, is_scalar_wire k = true -> forall fuel b acc, bytes_ok b -> (length b < fuel)%nat ->
+  match unpack fuel k b with
+  | Some xs => dec_packed fuel k b acc = (acc ++ xs, true)
+  | None => snd (dec_packed fuel k b acc) = false
+  end.
+Proof. exact dec_packed_unpack. Qed.
+(* Message / PresentMessage / RepeatedMessage / UnrecognizedFields and arbitrary generated programs of calls: their
+   contracts are the lemmas dec_message_step, repmsg_iter, unrec_loop of Schema/TDec.v, composed into T_dec (C02). *)
 
 (* tie to the source by translation: the zig-zag terms regenerated from conv.go/wire.go are the
    model's, and the generator's types table is the one the model mirrors *)
@@ -71,3 +97,6 @@ Print Assumptions C13_nest_always.
 Print Assumptions C13_nest_present.
 Print Assumptions C13_reader_value.
 Print Assumptions C13_reader_next.
+Print Assumptions C13_reader_any_input.
+Print Assumptions C13_repeated_reader_iteration.
+Print Assumptions C13_packed_is_reference_unpack.
